@@ -1,7 +1,6 @@
 """C33 — backup archives restore exactly what was backed up."""
 from __future__ import annotations
 
-import ast
 import hashlib
 import io
 import json
@@ -10,7 +9,6 @@ import re
 import tarfile
 from typing import Any
 
-from ..boot import repo_path
 from ..gen import archive as gen_archive
 from ..runner import Divergence, Driver, Env, Outcome, Violation, diff_streams
 
